@@ -90,7 +90,9 @@ def shape (decls : List Decl) : Nat → Ty → Option (List (String × Bool × T
         match acc, shape decls n m with
         | some (a, ai), some (ms, mi) => some (ms.foldl putMember a, if ai.isSome then ai else mi)
         | _, _ => none) (some ([], none))
-    | .bi "Partial" [x] => (shape decls n x).map fun s => (s.1.map (fun m => (m.1, true, m.2.2)), s.2)
+    -- `Partial` of an index signature: TypeScript makes the value type `V | undefined`
+    | .bi "Partial" [x] => (shape decls n x).map fun s =>
+        (s.1.map (fun m => (m.1, true, m.2.2)), s.2.map (fun i => (i.1, Ty.union [i.2, .kw "undefined"])))
     | .bi "Required" [x] => (shape decls n x).map fun s => (s.1.map (fun m => (m.1, false, m.2.2)), none)
     | .bi "Readonly" [x] => shape decls n x
     | .bi "Pick" [x, ks] => match shape decls n x, litKeys decls n ks with
